@@ -94,6 +94,8 @@ Definition is_err (t : tree) : bool := match t with TErr => true | _ => false en
 Record cfg := { literal_enums : bool; field_prefix : str }.
 Definition env := str -> option tree.          (* schemas.classes_by_reference, keyed by the $ref text *)
 Definition kid := str -> tree.                 (* a sub-schema waiting for the name it is built under *)
+Definition envl (l : list (str * tree)) : env :=
+  fun r => match find (fun kv => str_eqb r (fst kv)) l with Some kv => Some (snd kv) | None => None end.
 
 (* ---- names ---- *)
 Definition s_type_ : str := [95;116;121;112;101;95].
